@@ -59,6 +59,8 @@ def property_failures_on_impl(cov, vdw):
                 fails.append({"preset": p, "z": z, "got": g, "want": w})
     if not (r.get("custom_equal") and r.get("custom_same_object")):
         fails.append({"preset": "custom", "z": None, "got": "array changed", "want": "unchanged"})
+    for b in (r.get("custom_lengths") or {}).get("bad", []):
+        fails.append({"preset": "custom", "z": None, "got": b, "want": "a custom per-atom array of any length is used unchanged"})
     return fails, r
 
 
